@@ -167,6 +167,9 @@ def check_multiplier(run):
                 d = "ticks per next() differ from the closed form ceil((j+1)*out/in) - ceil(j*out/in): first at (index, value) %r; total %d, expected %d" % (
                     firstbad, r["total"], exp_total)
             fails.setdefault(k, []).append((c, d))
+            if kind == "div":
+                run.nontrivial("mult %r/%r" % (out, inn))
+            continue        # already reported with a failing input; nothing to learn from the model comparison
         # ---- correspondence term ----
         if kind == "div":
             n = min(steps, 2 * m + 2 if m <= 64 else m + 2)      # at least one whole period and the next emission
@@ -328,8 +331,8 @@ def check_timeline(run):
             run.violation({"kind": sig, "site": "Timeline.tick"}, {
                 "case": c, "observed": d, "oracle": "per device ceil((j+1)*rate/tl) - ceil(j*rate/tl) ticks on timeline tick j, devices served in order",
                 "python": tl_snippet(c)})
-        if "error" in r:
-            continue
+        if "error" in r or sig:
+            continue        # (a case the oracle has reported is not sent to Coq: its observed encodings can be huge)
         if r.get("ticks_per_beat") != c["rate"]:
             run.violation({"kind": "timeline-rate", "site": "Timeline.ticks_per_beat"}, {
                 "case": c, "observed": "Timeline.ticks_per_beat = %r with DummyClock(ticks_per_beat=%r)" % (r.get("ticks_per_beat"), c["rate"]),
@@ -649,6 +652,7 @@ def check_clock(run):
                 "case": clock_payload(c), "observed": verdict[1], "counts_observed": counts[:80],
                 "oracle": "floor(elapsed / tick duration) ticks after every wake-up; after a tempo change the ticks lie on one grid of the new duration",
                 "python": clock_snippet(c)})
+            continue
         if counts:
             run.dist("clock.max-burst.%s" % ("<10" if max(y - x for x, y in zip([0] + counts, counts)) < 10 else
                                              "<1000" if max(y - x for x, y in zip([0] + counts, counts)) < 1000 else ">=1000"))
@@ -769,6 +773,7 @@ def check_midi(run):
                 "case": {"has_target": c["has_target"], "has_cb": c["has_cb"], "msgs": c["msgs"][:j + 1]},
                 "observed": "message %d %r made the clock-target calls %r (0 tick, 1 start, 2 stop, 3 reset), expected %r" % (j, m, got, w),
                 "python": snippet})
+            continue
         if r.get("ticks_per_beat") != 24:
             run.violation({"kind": "midi-in-rate", "site": "MidiInputDevice.ticks_per_beat"}, {
                 "case": {}, "observed": "MidiInputDevice.ticks_per_beat = %r, MIDI clock is 24 PPQN" % r.get("ticks_per_beat"), "python": snippet})
@@ -828,6 +833,7 @@ def check_midi(run):
             run.violation({"kind": "midi-clock-timeline", "site": "MidiInputDevice->Timeline"}, {
                 "case": {"devs": c["devs"], "msgs": c["msgs"][:j + 1]},
                 "observed": "message %d %r: (device ticks, timeline position in ticks) = %r, expected %r" % (j, m, got, w), "python": snippet})
+            continue
         mslit = lst([msg_lit(m, i) for i, m in enumerate(c["msgs"])])
         obs = "[" + "; ".join("(%s, %s)" % (zlist(o[0]), zlit(o[1])) for o in r["obs"]) + "]"
         terms.append("midi_tl_ok %s %s %s %s" % (lst([rlit(dev_rate(s)) for s in c["devs"]]), mslit, obs, zlit(r["code"])))
